@@ -4,9 +4,9 @@
     neighbour list, every edge points away from the root (rank), no shared child, every node
     reachable from the root -- and refines the tree model through [abs] (the DumpTree walk). *)
 From Coq Require Import String ZArith QArith Bool Arith List.
-From GT Require Import Base.UTree Model.Reroot Model.Heap
+From GT Require Import Base.UTree Model.Reroot Model.Prune Model.Collapse Model.TreeGen Model.Heap
      Proofs.HeapBase Proofs.HeapRep Proofs.HeapGood Proofs.HeapGoodRep Proofs.HeapOf Proofs.HeapReroot
-     Proofs.HeapUnroot.
+     Proofs.HeapUnroot Proofs.HeapGraft Proofs.HeapCollapse Proofs.HeapPrune.
 Import ListNotations.
 Local Close Scope Q_scope.
 Local Open Scope string_scope.
@@ -91,6 +91,37 @@ Theorem C03Heap_del_neighbor : forall h n n2 hn h',
   hedges h' = hedges h.
 Proof. exact del_neighbor_removes. Qed.
 Print Assumptions C03Heap_del_neighbor.
+
+(** (b) Tree.GraftTipOnEdge (with the creation of the tip node): on any branch of a good heap
+    it succeeds and the heap stays good *)
+Theorem C03Heap_graft_good : forall h name e, Good h -> alookup e (hedges h) <> None ->
+  exists tip ne ne2 nn h', graft_new_tip name e h = HOk (tip, ne, ne2, nn, h') /\ Good h'.
+Proof. exact graft_new_tip_good. Qed.
+Print Assumptions C03Heap_graft_good.
+
+(** (b) Tree.RemoveEdges, one branch (tip branch / protected root branch / contraction): it
+    succeeds and the heap stays good *)
+Theorem C03Heap_remove_edge_good : forall rr rt h e, Good h -> alookup e (hedges h) <> None ->
+  exists h', remove_edge rr rt e h = HOk h' /\ Good h'.
+Proof. exact remove_edge_good. Qed.
+Print Assumptions C03Heap_remove_edge_good.
+
+(** (b, partial) Tree.removeTip: its first step and the body of its single-node loop (the
+    parent forgets the leaf, the leaf and its branch leave the heap) keep the heap good ... *)
+Theorem C03Heap_drop_leaf_good : forall h x hx q ex, Good h ->
+  alookup x (hnodes h) = Some hx -> hneigh hx = [q] -> hbr hx = [ex] -> x <> hroot h ->
+  exists h', (do h1 <- del_neighbor q x h; del_node x h1) = HOk h' /\ Good h'.
+Proof. exact drop_leaf_good. Qed.
+Print Assumptions C03Heap_drop_leaf_good.
+
+(** ... hence removeTip itself when the neighbour of the tip keeps at least three neighbours
+    (tree.go "Case 3"; Cases 1 and 2 are not proved at heap level) *)
+Theorem C03Heap_remove_tip_case3_good : forall h name tip ht q ex hq, Good h ->
+  alookup tip (hnodes h) = Some ht -> hneigh ht = [q] -> hbr ht = [ex] -> tip <> hroot h ->
+  alookup q (hnodes h) = Some hq -> 4 <= length (hneigh hq) ->
+  exists h', remove_tip_heap name tip h = HOk h' /\ Good h'.
+Proof. exact remove_tip_case3_good. Qed.
+Print Assumptions C03Heap_remove_tip_case3_good.
 
 (** * (c) the invariant is not vacuous, and says more than the dump *)
 Definition mk2 (n0 n1 : hnode) (ed : hedge) : heap := mkHeap [(0, n0); (1, n1)] [(1, ed)] 0 2 2.
@@ -222,3 +253,100 @@ Example C03Heap_run_history :
   end = true.
 Proof. vm_compute. reflexivity. Qed.
 Print Assumptions C03Heap_run_history.
+
+(** the three operations whose refinement square is not proved (only [Good]-preservation, and
+    for removeTip not even that): the heap transformers agree with the tree models of
+    Model/Collapse.v, Model/Prune.v and (GraftTipOnEdge) Model/TreeGen.v [graft_node] on every
+    branch / tip of three trees, error cases included *)
+(** ((a,(b,(c,d)x)y)z,e,f) with decorations *)
+Definition hx_deep : utree :=
+  UNode "r" [] [Some (eds 1 (1#2), UNode "z" [] [Some (ed 1, lf "a"); None;
+                    Some (eds 2 (1#4), UNode "y" [] [None; Some (ed 1, lf "b");
+                          Some (eds 3 (3#4), UNode "x" [] [Some (ed 1, lf "c"); Some (ed 2, lf "d"); None])])]);
+               Some (ed 3, lf "e"); Some (ed 4, lf "f")].
+Definition hx_chain : utree :=
+  UNode "" [] [Some (ed 1, lf "a");
+               Some (ed 2, UNode "s" [] [None; Some (ed 1, UNode "s2" [] [None; Some (ed 5, lf "b")])]);
+               Some (ed 3, lf "c")].
+Definition hx_two : utree := UNode "" [] [Some (ed 1, lf "a"); Some (ed 2, lf "b")].
+Definition rr_at (t : utree) (i : nat) : utree := match reroot t i with Ok t' => t' | _ => t end.
+
+Definition edge_ids (h : heap) : list nat := match dump h with Some lt => leids lt | None => [] end.
+
+Definition chk_rm_edge (rr rt : bool) (t : utree) (k : nat) : bool :=
+  let h := heap_of t in
+  match nth_error (edge_ids h) k with
+  | Some e => match remove_edge rr rt e h with
+              | HOk h' => abs_is h' (remove_edges_idx rr rt [k] t)
+              | _ => false
+              end
+  | None => false
+  end.
+Definition all_rm_edge (t : utree) : bool :=
+  forallb (fun rr => forallb (fun rt => forallb (chk_rm_edge rr rt t) (seq 0 (length (edges t)))) [true; false]) [true; false].
+
+Example C03Heap_run_remove_edge :
+  all_rm_edge hx_start && all_rm_edge hx_rooted && all_rm_edge hx_deep &&
+  all_rm_edge (rr_at hx_deep 3) && all_rm_edge (rr_at hx_rooted 4) = true.
+Proof. vm_compute. reflexivity. Qed.
+Print Assumptions C03Heap_run_remove_edge.
+
+Definition tip_id (h : heap) (nm : string) : option nat :=
+  match tree_nodes h with
+  | HOk ns => find (fun n => match alookup n (hnodes h) with
+                             | Some hn => String.eqb (hname hn) nm && Nat.eqb (length (hneigh hn)) 1
+                             | None => false end) ns
+  | _ => None
+  end.
+Definition chk_rm_tip (t : utree) (nm : string) : bool :=
+  let h := heap_of t in
+  match tip_id h nm with
+  | Some n => match remove_tip_heap nm n h, remove_tip nm t with
+              | HOk h', Ok t' => abs_is h' t'
+              | HErr m, Err m' => String.eqb m m'
+              | _, _ => false
+              end
+  | None => false
+  end.
+
+Example C03Heap_run_remove_tip :
+  forallb (chk_rm_tip hx_start) ["a"; "b"; "c"; "d"; "e"] &&
+  forallb (chk_rm_tip hx_rooted) ["a"; "b"; "c"; "d"] &&
+  forallb (chk_rm_tip hx_deep) ["a"; "b"; "c"; "d"; "e"; "f"] &&
+  forallb (chk_rm_tip (rr_at hx_deep 3)) ["a"; "b"; "c"; "d"; "e"; "f"] &&
+  forallb (chk_rm_tip (rr_at hx_rooted 4)) ["a"; "b"; "c"; "d"] &&
+  forallb (chk_rm_tip hx_chain) ["a"; "b"; "c"] && forallb (chk_rm_tip hx_two) ["a"; "b"] = true.
+Proof. vm_compute. reflexivity. Qed.
+Print Assumptions C03Heap_run_remove_tip.
+
+(** GraftTipOnEdge read on trees: the k-th branch (Edges() order) l -e-> c becomes
+    l -e/2-> [graft_node](tip through a branch of length 1, c through a branch of length e/2) *)
+Definition halve_e (e : einfo) : einfo := mkE (half (elen e)) (esup e) (epv e) (ecom e).
+Fixpoint ugrafts (tip : utree) (t : utree) : list utree :=
+  match t with
+  | UNode n c sl =>
+    (fix go (pre : list slot) (l : list slot) : list utree :=
+       match l with
+       | [] => []
+       | None :: r => go (pre ++ [None])%list r
+       | Some (e, ch) :: r =>
+         (UNode n c (pre ++ Some (halve_e e, graft_node (mkE 1%Q nilv nilv []) (mkE (half (elen e)) nilv nilv []) tip ch) :: r)%list
+          :: map (fun ch' => UNode n c (pre ++ Some (e, ch') :: r)%list) (ugrafts tip ch)
+          ++ go (pre ++ [Some (e, ch)])%list r)%list
+       end) [] sl
+  end.
+Definition chk_graft (t : utree) (k : nat) : bool :=
+  let h := heap_of t in
+  match nth_error (edge_ids h) k, nth_error (ugrafts (lf "new") t) k with
+  | Some e, Some t' => match graft_new_tip "new" e h with
+                       | HOk (_, _, _, _, h') => abs_is h' t'
+                       | _ => false
+                       end
+  | _, _ => false
+  end.
+
+Example C03Heap_run_graft :
+  forallb (chk_graft hx_start) (seq 0 7) && forallb (chk_graft hx_deep) (seq 0 9) &&
+  forallb (chk_graft (rr_at hx_deep 3)) (seq 0 9) = true.
+Proof. vm_compute. reflexivity. Qed.
+Print Assumptions C03Heap_run_graft.
